@@ -1,20 +1,29 @@
 (* Properties/C05.v — C05: only complete, well-formed query text is accepted.
    Statements only; proofs are in Proofs/ParserProofs.v and Proofs/LexerProofs.v.
 
-   [parse_prefix] reads one program from the front of the token list and
-   returns what is left (this is all a start rule without EOF does);
    [parse_program] is the reference notion of "accepted". *)
 From Ferret Require Import Render Proofs.LexerProofs Proofs.ParserProofs.
 
-(* acceptance means the whole token list was the program: nothing is left *)
+(* [parse_prefix_with ch ts] reads one program from the front of the token
+   list under the reading [ch] of the '?' tokens that follow ')' (error operator
+   or ternary, where the next tokens do not settle it) and returns what is left
+   (this is all a start rule without EOF does); [parse_program] tries the
+   readings in the generated parser's order of preference and accepts when one
+   of them covers the whole list. *)
+
+(* acceptance means the whole token list was the program, under some reading:
+   nothing is left *)
 Theorem parse_consumes_all : forall ts p,
-  parse_program ts = Some p <-> parse_prefix ts = POk p [].
-Proof. exact accept_iff_exhausted. Qed.
+  parse_program ts = Some p ->
+  exists terns, parse_prefix_with (choice_of terns) ts = POk p [].
+Proof. exact parse_consumes_all_lemma. Qed.
 Print Assumptions parse_consumes_all.
 
-(* whatever is left over after a complete program makes the query ill-formed *)
-Theorem leftover_rejected : forall ts p t r,
-  parse_prefix ts = POk p (t :: r) -> parse_program ts = None.
+(* if every reading leaves something over after the program it reads, the
+   query is ill-formed *)
+Theorem leftover_rejected : forall ts,
+  (forall ch p r, parse_prefix_with ch ts = POk p r -> r <> []) ->
+  parse_program ts = None.
 Proof. exact leftover_is_rejected. Qed.
 Print Assumptions leftover_rejected.
 
@@ -30,19 +39,22 @@ Print Assumptions lexer_total.
    [printable] (literals other than floats, names, parameters, every unary /
    binary / ternary operator, arrays, calls, error suppression); objects,
    member paths, ranges, sub-queries and FOR clauses are covered by the
-   correspondence check only. *)
+   correspondence check only.  The printer parenthesises a then-branch unless
+   it begins with a token that settles "cond ? ..." as a ternary (Render.then_safe);
+   on printed text every reading of the '?' tokens gives the same tree
+   (ParserProofs.parse_print_expr_any), so the search returns it. *)
 Theorem parse_print_expr_partial : forall e,
   printable e = true -> parse_expr (print_expr e) = POk e [].
 Proof. exact parse_print_expr_lemma. Qed.
 Print Assumptions parse_print_expr_partial.
 
-(* RETURN e followed by any tokens s that cannot continue e: the program read
-   is RETURN e, s is left over — accepted iff s is empty.  Tokens after a
-   complete program are never ignored. *)
+(* RETURN e followed by any tokens s that cannot continue e: under every
+   reading the program read is RETURN e and s is left over — accepted iff s is
+   empty.  Tokens after a complete program are never ignored. *)
 Theorem no_silent_suffix_partial : forall extra e s,
   printable e = true -> hd_kind (pr extra 1 e ++ s) <> Some KDistinct ->
   ctx_ok false 0 1 s ->
-  parse_prefix (ret_toks extra e ++ s) = POk (ret_prog e) s /\
+  (forall ch, parse_prefix_with ch (ret_toks extra e ++ s) = POk (ret_prog e) s) /\
   parse_program (ret_toks extra e ++ s) = match s with [] => Some (ret_prog e) | _ => None end.
 Proof. exact no_silent_suffix_both. Qed.
 Print Assumptions no_silent_suffix_partial.
@@ -74,7 +86,7 @@ Proof. vm_compute. reflexivity. Qed.
 (* what a start rule without EOF does, and what the property demands *)
 Example ex_second_return :
   (match lex (bs "RETURN 1 RETURN 2") with
-   | Some ts => (match parse_prefix ts with POk p r => Some (p, List.length r) | _ => None end, parse_program ts)
+   | Some ts => (match parse_prefix_with (fun _ => true) ts with POk p r => Some (p, List.length r) | _ => None end, parse_program ts)
    | None => (None, None)
    end) = (Some (ret_prog (EInt 1), 2%nat), None).
 Proof. vm_compute. reflexivity. Qed.
@@ -83,3 +95,16 @@ Example ex_stopper_suffix :
   stopper KReturn = true /\ ctx_ok false 0 1 [] /\
   hd_kind (pr no_extra 1 (EInt 1) ++ [tk KReturn "RETURN"]) <> Some KDistinct.
 Proof. split; [reflexivity|split; [apply ctx_nil|discriminate]]. Qed.
+
+(* '?' after ')' : the reading is found by trying, not by a bounded look-ahead *)
+Example ex_backtrack :
+  parse_text (bs "RETURN (1) ? (2) ?: 3 : 4") =
+  Some (ret_prog (ECond (EInt 1) (Some (ECond (EInt 2) None (EInt 3))) (EInt 4))).
+Proof. vm_compute. reflexivity. Qed.
+
+(* both readings parse: the error operator at the leftmost '?' is preferred,
+   as the generated parser does (the query evaluates to -5) *)
+Example ex_preference :
+  parse_text (bs "RETURN (1) ? - (0) ? - 5 : 7") =
+  Some (ret_prog (ECond (EMath MSub (ESuppress (EInt 1)) (EInt 0)) (Some (EUn UNeg (EInt 5))) (EInt 7))).
+Proof. vm_compute. reflexivity. Qed.
